@@ -197,3 +197,92 @@ func ParseFrame(b []byte) (*Frame, error) {
 	f.IsIPv4UDP = true
 	return f, nil
 }
+
+func csum(b []byte, init uint32) uint16 {
+	s := init
+	for i := 0; i+1 < len(b); i += 2 {
+		s += uint32(b[i])<<8 | uint32(b[i+1])
+	}
+	if len(b)%2 == 1 {
+		s += uint32(b[len(b)-1]) << 8
+	}
+	for s>>16 != 0 {
+		s = s&0xffff + s>>16
+	}
+	return ^uint16(s)
+}
+
+// BuildFrame4 builds Ethernet/IPv4/UDP (UDP checksum 0 = not computed, legal for IPv4).
+func BuildFrame4(srcMAC, dstMAC []byte, srcIP, dstIP [4]byte, sport, dport uint16, payload []byte) []byte {
+	f := make([]byte, 0, 14+20+8+len(payload))
+	f = append(f, dstMAC[:6]...)
+	f = append(f, srcMAC[:6]...)
+	f = append(f, 0x08, 0x00)
+	tot := 20 + 8 + len(payload)
+	ip := []byte{0x45, 0, byte(tot >> 8), byte(tot), 0, 0, 0x40, 0, 64, 17, 0, 0}
+	ip = append(ip, srcIP[:]...)
+	ip = append(ip, dstIP[:]...)
+	c := csum(ip, 0)
+	ip[10], ip[11] = byte(c>>8), byte(c)
+	f = append(f, ip...)
+	ul := 8 + len(payload)
+	f = append(f, byte(sport>>8), byte(sport), byte(dport>>8), byte(dport), byte(ul>>8), byte(ul), 0, 0)
+	return append(f, payload...)
+}
+
+// BuildFrame6 builds Ethernet/IPv6/UDP with the mandatory UDP checksum.
+func BuildFrame6(srcMAC, dstMAC []byte, srcIP, dstIP [16]byte, sport, dport uint16, payload []byte) []byte {
+	f := make([]byte, 0, 14+40+8+len(payload))
+	f = append(f, dstMAC[:6]...)
+	f = append(f, srcMAC[:6]...)
+	f = append(f, 0x86, 0xdd)
+	ul := 8 + len(payload)
+	f = append(f, 0x60, 0, 0, 0, byte(ul>>8), byte(ul), 17, 64)
+	f = append(f, srcIP[:]...)
+	f = append(f, dstIP[:]...)
+	udp := []byte{byte(sport >> 8), byte(sport), byte(dport >> 8), byte(dport), byte(ul >> 8), byte(ul), 0, 0}
+	udp = append(udp, payload...)
+	pseudo := append(append([]byte{}, srcIP[:]...), dstIP[:]...)
+	pseudo = append(pseudo, 0, 0, byte(ul>>8), byte(ul), 0, 0, 0, 17)
+	c := csum(append(pseudo, udp...), 0)
+	if c == 0 {
+		c = 0xffff
+	}
+	udp[6], udp[7] = byte(c>>8), byte(c)
+	return append(f, udp...)
+}
+
+// Frame6 is an Ethernet/IPv6/UDP frame decoded by hand.
+type Frame6 struct {
+	DstMAC, SrcMAC [6]byte
+	SrcIP, DstIP   [16]byte
+	SrcPort        uint16
+	DstPort        uint16
+	Payload        []byte
+	IsUDP          bool
+}
+
+func ParseFrame6(b []byte) (*Frame6, bool) {
+	if len(b) < 14+40+8 || b[12] != 0x86 || b[13] != 0xdd {
+		return nil, false
+	}
+	f := &Frame6{}
+	copy(f.DstMAC[:], b[0:6])
+	copy(f.SrcMAC[:], b[6:12])
+	ip := b[14:]
+	if ip[0]>>4 != 6 || ip[6] != 17 {
+		return f, true
+	}
+	copy(f.SrcIP[:], ip[8:24])
+	copy(f.DstIP[:], ip[24:40])
+	udp := ip[40:]
+	f.SrcPort = binary.BigEndian.Uint16(udp[0:2])
+	f.DstPort = binary.BigEndian.Uint16(udp[2:4])
+	ul := int(binary.BigEndian.Uint16(udp[4:6]))
+	if ul < 8 || ul > len(udp) {
+		ul = len(udp)
+	}
+	f.Payload = udp[8:ul]
+	f.IsUDP = true
+	return f, true
+}
